@@ -400,6 +400,11 @@ class Interp:
         return self.ev(e[1])
 
     def e_num(self, e):
+        if "literal-always-32" in self.D:
+            sp = e[3].lower()
+            uns = "u" in sp.lstrip("0x") if sp.startswith("0x") else "u" in sp
+            T = (not uns, 64 if "ll" in sp else 32)
+            return (T, wrap(e[1], T))
         return (e[2], e[1])
 
     def e_fnum(self, e):
@@ -454,6 +459,8 @@ class Interp:
         if op == "+":
             return (P, v)
         if op == "-":
+            if "neg-literal-signed" in self.D and is_const_expr(e[2]):
+                P = (True, P[1])  # the folded negation of a constant is typed signed
             return (P, wrap(-v, P))
         if op == "~":
             return (P, wrap(~v, P))
@@ -506,6 +513,8 @@ class Interp:
         taken = e[2] if c else e[3]
         other = e[3] if c else e[2]
         tv = self.ev(taken)
+        if "const-cond-no-conversion" in self.D and is_const_expr(e[1]):
+            return tv  # the folded ?: yields the live arm as it is
         T1 = tv[0]
         T2 = self.static_type(other)
         if is_int(T1) and T2 is not None and is_int(T2):
@@ -532,13 +541,13 @@ class Interp:
         T = self.static_type(e[1])
         if T is None or not is_int(T):
             raise CUnsupported("sizeof of unknown type")
-        return (U64, (T[1] + 7) // 8)
+        return (INT if "sizeof-is-int" in self.D else U64, (T[1] + 7) // 8)
 
     def e_sizeof_t(self, e):
         T = e[1]
         if not is_int(T):
             raise CUnsupported("sizeof(type %r)" % (T,))
-        return (U64, (T[1] + 7) // 8)
+        return (INT if "sizeof-is-int" in self.D else U64, (T[1] + 7) // 8)
 
     def e_stmtexpr(self, e):
         items = e[1]
@@ -704,7 +713,7 @@ class Interp:
         if k == "comma":
             return self.static_type(e[2])
         if k in ("sizeof_e", "sizeof_t"):
-            return U64
+            return INT if "sizeof-is-int" in self.D else U64
         if k == "call":
             return self.call_type(e)
         if k == "stmtexpr":
@@ -1074,3 +1083,16 @@ def _all_nodes(e):
     elif isinstance(e, list):
         for x in e:
             yield from _all_nodes(x)
+
+
+def is_const_expr(e):
+    """What the compiler folds at compile time: literals, sizeof, and + - ~ / + - * / comparisons of them."""
+    e = cparse.strip_paren(e)
+    k = e[0]
+    if k in ("num", "sizeof_e", "sizeof_t"):
+        return True
+    if k == "un" and e[1] in ("+", "-", "~"):
+        return is_const_expr(e[2])
+    if k == "bin" and e[1] in ("+", "-", "*", "<", ">", "<=", ">=", "==", "!="):
+        return is_const_expr(e[2]) and is_const_expr(e[3])
+    return False
